@@ -1,10 +1,10 @@
 #!/bin/bash
 # Confirms each seeded change in a scratch worktree of /repo (outside /repo and /verif):
 #  demo fails with the change, existing suite passes with the change, demo passes without it.
-# usage: confirm_seeded.sh <ID> <mN>     (reads /tmp/mut/<ID>.out/<mN>/, writes /verif/seeded/<ID>-<mN>/)
+# usage: confirm_seeded.sh <ID> <mN> [<name>]   (reads /tmp/mut/<ID>.out/<mN>/, writes /verif/seeded/<name or ID-mN>/)
 ID=$1; M=$2
 SRC=/tmp/mut/$ID.out/$M
-OUT=/verif/seeded/$ID-$M
+OUT=/verif/seeded/${3:-$ID-$M}
 WT=/tmp/mut/confirm
 [ -f $SRC/patch.diff ] || { echo "no patch"; exit 2; }
 mkdir -p $OUT
@@ -37,7 +37,7 @@ m["confirmed_by_builder"]={"demo_rc_without_change": $RC_WITHOUT, "demo_rc_with_
    "confirmed": ($RC_WITHOUT == 0 and $RC_WITH != 0 and $RC_SUITE == 0 and $RC_CFG == 0),
    "base_commit": "$(git -C /repo rev-parse --short HEAD)"}
 json.dump(m,open("$OUT/meta.json","w"),indent=1)
-print("$ID-$M", m["confirmed_by_builder"])
+print("${3:-$ID-$M}", m["confirmed_by_builder"])
 PY
 tail -c 1500 $OUT/demo_with.log > $OUT/demo_with.tail; mv $OUT/demo_with.tail $OUT/demo_with.log
 tail -c 600 $OUT/demo_without.log > $OUT/t; mv $OUT/t $OUT/demo_without.log
